@@ -289,8 +289,17 @@ def run(ctx):
     cn = [n for n in cc.nodes if getattr(node_assign_value(n, "connector"), "value", 1) is None]
     fcb = ctx.facts(cb)
     sqn = [n for n in cc.nodes if any(prog.resolve_call(cb, c) is sq for c in n.calls())]
-    ok = bool(z) and bool(pr) and bool(cn) and cc.dominates([z[0].id], cc.exit.id) and cc.dominates([cn[0].id], pr[0].id) and \
-        bool(sqn) and all(known_falsy(fcb[n.id], "self._dDown") for n in sqn)
+    # the three stores happen on every path, before the queue is sent, with nothing but logging in between (their mutual
+    # order is immaterial then)
+    ok = bool(z) and bool(pr) and bool(cn) and bool(sqn) and all(known_falsy(fcb[n.id], "self._dDown") for n in sqn)
+    if ok:
+        trio = [z[0].id, pr[0].id, cn[0].id]
+        ok = all(cc.dominates([t_], cc.exit.id) and all(cc.dominates([t_], n.id) for n in sqn) for t_ in trio)
+        first = [t_ for t_ in trio if all(t_ == o_ or o_ in cc.reach([t_]) for o_ in trio)]
+        last = [t_ for t_ in trio if all(t_ == o_ or t_ in cc.reach([o_]) for o_ in trio)]
+        if ok and first and last:
+            between = cc.reach([first[0]], avoid=[last[0]])
+            ok = not any(any(not (call_recv(c) or "").startswith("log") for c in cc.nodes[i].calls()) for i in between if i not in trio)
     r.check(ok, "%s#success-resets" % cb.qname, "successful connect does not zero the failure count, clear the attempt and "
             "(unless closing) send the queue", where(cb, cb.node), "back-off keeps growing / queued requests never sent")
 
